@@ -145,6 +145,29 @@ def run_A(case, V, hooks, distinct):
                                 a.orchestrator.waiting_for_results(ids[k][w], [ids[k][t] for t in targets])
                             for t in targets:
                                 edges.add((w, t))
+                        elif r < 0.36:
+                            # a finish attempt that the orchestrator must reject (illegal from the current status, or by a runner that does not own it):
+                            # the invocation has NOT finished, so nothing it is awaited for may be released
+                            i = rng.randrange(nids)
+                            if status[i] in FINALS:
+                                continue
+                            fin = rng.choice(["SUCCESS", "FAILED"])
+                            from pynenc.exceptions import InvocationStatusError
+                            from vlib.apps import runner_ctx as _rc
+                            if not model.has_edge(status[i], fin):
+                                who = ctx
+                            elif status[i] in ("RUNNING", "PENDING"):
+                                who = _rc("ThreadRunner", "not-the-owner")
+                            else:
+                                continue
+                            trail.append(["rejected-finish", i, fin])
+                            hooks["rejected_finishes"] += 1
+                            for k, a in apps.items():
+                                try:
+                                    a.orchestrator.set_invocation_status(ids[k][i], InvocationStatus[fin], who)
+                                    V.append({"sig": f"illegal-finish-accepted:{k}", "what": f"{k}: {status[i]} -> {fin} accepted", "witness": {"trail": trail[-15:]}})
+                                except InvocationStatusError:
+                                    pass
                         elif r < 0.6:
                             i = rng.randrange(nids)
                             legal = [s for s in ("PENDING", "RUNNING", "SUCCESS", "FAILED", "RETRY", "REROUTED", "KILLED") if model.has_edge(status[i], s)]
